@@ -17,8 +17,9 @@ from wntr.sim.aml import expr as _expr, aml as _amlmod
 class Con(NativeModel):
     """Denotation of aml.Constraint(expr): the residual term."""
 
-    def __init__(self, term):
+    def __init__(self, term, branches=None):
         self.term = term  # SV real
+        self.branches = branches  # [(cond, expr term)] + [(None, final)] for conditional rows
 
     def __repr__(self):
         return "Con<%s>" % (self.term,)
@@ -61,7 +62,7 @@ def m_constraint(interp, args, kw):
     e = args[0] if args else kw["expr"]
     e = _unleaf(e)
     if isinstance(e, CondExpr):
-        return Con(SV(e.denote(), "real"))
+        return Con(SV(e.denote(), "real"), branches=list(zip(e.conds, e.exprs)) + [(None, e.final)])
     return Con(SV(as_real(e), "real"))
 
 
